@@ -39,6 +39,8 @@ package writeback
 //@   requires f != nil && f.pipeline != nil && f.pipeline.comp != nil
 //@   requires f.pipeline.comp.spec.Log2BlockSize < 64
 //@   requires ref(evl(f)) != ref(fll(f)) || cap(evl(f)) == 0
+//     the two lists exist already (allocation order; the engine does not know it for references read from the entry heap)
+//@   requires ref(evl(f)) <= allocTop && ref(fll(f)) <= allocTop
 //     a tautology of Go (a length is an int); stated because lengths under a quantifier carry no type bound in the engine
 //@   requires forall s in 0..len(sets(f)) :: len(sets(f)[s].Blocks) <= MaxInt64
 //@   label C17.select.panics
@@ -47,7 +49,7 @@ package writeback
 //@   label C17.select.blocksize
 //@   ensures bs == 1 << f.pipeline.comp.spec.Log2BlockSize
 //@   label C17.select.lines
-//@   ensures forall j in 0..len(fa(f)) :: c17LineOf(f, bs, wl, wq, j) && c17AddrSel(f, wl, wi, wl[j])
+//@   ensures (forall j in 0..len(fa(f)) :: c17LineOf(f, bs, wl, wq, j)) && (forall j in 0..len(fa(f)) :: c17AddrSel(f, wl, wi, wl[j]))
 //@   label C17.select.count
 //@   ensures len(evl(f)) >= old(len(evl(f))) && len(evl(f)) - old(len(evl(f))) == len(fll(f)) - old(len(fll(f)))
 //@   label C17.select.prefix
@@ -75,33 +77,33 @@ package writeback
 //@   loop 0: backedge wi = upd(wi, a / blockSize * blockSize, rangeindex)
 //@   loop 0: invariant -1 <= rangeindex && rangeindex < len(fa(f)) && blockSize > 0
 //@   loop 0: invariant len(matchAddr) >= 0 && (len(matchAddr) > 0 <==> rangeindex >= 0)
-//@   loop 0: invariant forall j in 0..rangeindex + 1 :: c17LineOf(f, blockSize, wl, wq, j) && (wl[j] in matchAddr)
+//@   loop 0: invariant forall j in 0..rangeindex + 1 :: c17LineOf(f, blockSize, wl, wq, j)
+//@   loop 0: invariant forall j in 0..rangeindex + 1 :: (wl[j] in matchAddr) && matchAddr[wl[j]]
 //@   loop 0: invariant forall k int :: (k in matchAddr) ==> matchAddr[k] && 0 <= wi[k] && wi[k] <= rangeindex && wl[wi[k]] == k
 //
 //     loop 1 walks the sets (rangeindex = last finished set), loop 2 the ways of set `setID`
 //@   loop 1: ghost pos = idperm
 //@   loop 1: backedge pos = mapof(p, p >= setID * c17PW ? posI[p] : pos[p])
-//@   loop 1: invariant -1 <= rangeindex && rangeindex < len(sets(f))
-//@   loop 1: invariant (ref(evl(f)) != ref(fll(f)) || cap(evl(f)) == 0) && ref(evl(f)) <= allocTop && ref(fll(f)) <= allocTop && (ref(evl(f)) == old(ref(evl(f))) || fresh(evl(f))) && (ref(fll(f)) == old(ref(fll(f))) || fresh(fll(f)))
-//@   loop 1: invariant len(evl(f)) >= old(len(evl(f))) && len(evl(f)) - old(len(evl(f))) == len(fll(f)) - old(len(fll(f)))
+//@   loop 1: invariant true ==> ((-1 <= rangeindex && rangeindex < len(sets(f))) && ((ref(evl(f)) != ref(fll(f)) || cap(evl(f)) == 0) && ref(evl(f)) <= allocTop && ref(fll(f)) <= allocTop && (ref(evl(f)) == old(ref(evl(f))) || fresh(evl(f))) && (ref(fll(f)) == old(ref(fll(f))) || fresh(fll(f)))) && (len(evl(f)) >= old(len(evl(f))) && len(evl(f)) - old(len(evl(f))) == len(fll(f)) - old(len(fll(f)))))
 //@   loop 1: invariant forall i in 0..old(len(evl(f))) :: evl(f)[i].SetID == old(evl(f)[i].SetID) && evl(f)[i].WayID == old(evl(f)[i].WayID)
 //@   loop 1: invariant forall i in 0..old(len(fll(f))) :: fll(f)[i].SetID == old(fll(f)[i].SetID) && fll(f)[i].WayID == old(fll(f)[i].WayID)
 //@   loop 1: invariant forall i in old(len(evl(f)))..len(evl(f)) :: fll(f)[i - old(len(evl(f))) + old(len(fll(f)))].SetID == evl(f)[i].SetID && fll(f)[i - old(len(evl(f))) + old(len(fll(f)))].WayID == evl(f)[i].WayID
-//@   loop 1: invariant forall i in old(len(evl(f)))..len(evl(f)) :: 0 <= evl(f)[i].SetID && evl(f)[i].SetID <= rangeindex && 0 <= evl(f)[i].WayID && evl(f)[i].WayID < len(sets(f)[evl(f)[i].SetID].Blocks) && c17Sel(f, wl, wi, evl(f)[i].SetID, evl(f)[i].WayID) && pos[c17Pair(evl(f)[i].SetID, evl(f)[i].WayID)] == i
+//@   loop 1: invariant forall i in old(len(evl(f)))..len(evl(f)) :: 0 <= evl(f)[i].SetID && evl(f)[i].SetID <= rangeindex && 0 <= evl(f)[i].WayID && evl(f)[i].WayID < len(sets(f)[evl(f)[i].SetID].Blocks)
+//@   loop 1: invariant forall i in old(len(evl(f)))..len(evl(f)) :: c17Sel(f, wl, wi, evl(f)[i].SetID, evl(f)[i].WayID)
+//@   loop 1: invariant forall i in old(len(evl(f)))..len(evl(f)) :: pos[c17Pair(evl(f)[i].SetID, evl(f)[i].WayID)] == i
 //@   loop 1: invariant forall s in 0..rangeindex + 1 :: forall w in 0..len(sets(f)[s].Blocks) :: c17Sel(f, wl, wi, s, w) ==> old(len(evl(f))) <= pos[c17Pair(s, w)] && pos[c17Pair(s, w)] < len(evl(f)) && evl(f)[pos[c17Pair(s, w)]].SetID == s && evl(f)[pos[c17Pair(s, w)]].WayID == w
 //@   loop 1: invariant forall i in old(len(evl(f)))..len(evl(f)) - 1 :: c17Less(evl(f)[i].SetID, evl(f)[i].WayID, evl(f)[i + 1].SetID, evl(f)[i + 1].WayID)
 //@   loop 1: invariant forall s in 0..rangeindex + 1 :: forall w in 0..len(sets(f)[s].Blocks) :: !c17Busy(f, s, w)
 //
 //@   loop 2: ghost posI = idperm
 //@   loop 2: backedge posI = len(evl(f)) > athead(len(evl(f))) ? upd(posI, c17Pair(setID, wayID), athead(len(evl(f)))) : posI
-//@   loop 2: invariant 0 <= setID && setID < len(sets(f)) && -1 <= rangeindex && rangeindex < len(sets(f)[setID].Blocks)
-//@   loop 2: invariant ref(set.Blocks) == ref(sets(f)[setID].Blocks) && off(set.Blocks) == off(sets(f)[setID].Blocks) && len(set.Blocks) == len(sets(f)[setID].Blocks)
-//@   loop 2: invariant (ref(evl(f)) != ref(fll(f)) || cap(evl(f)) == 0) && ref(evl(f)) <= allocTop && ref(fll(f)) <= allocTop && (ref(evl(f)) == old(ref(evl(f))) || fresh(evl(f))) && (ref(fll(f)) == old(ref(fll(f))) || fresh(fll(f)))
-//@   loop 2: invariant len(evl(f)) >= old(len(evl(f))) && len(evl(f)) - old(len(evl(f))) == len(fll(f)) - old(len(fll(f)))
+//@   loop 2: invariant true ==> ((0 <= setID && setID < len(sets(f)) && -1 <= rangeindex && rangeindex < len(sets(f)[setID].Blocks)) && (ref(set.Blocks) == ref(sets(f)[setID].Blocks) && off(set.Blocks) == off(sets(f)[setID].Blocks) && len(set.Blocks) == len(sets(f)[setID].Blocks)) && ((ref(evl(f)) != ref(fll(f)) || cap(evl(f)) == 0) && ref(evl(f)) <= allocTop && ref(fll(f)) <= allocTop && (ref(evl(f)) == old(ref(evl(f))) || fresh(evl(f))) && (ref(fll(f)) == old(ref(fll(f))) || fresh(fll(f)))) && (len(evl(f)) >= old(len(evl(f))) && len(evl(f)) - old(len(evl(f))) == len(fll(f)) - old(len(fll(f)))))
 //@   loop 2: invariant forall i in 0..old(len(evl(f))) :: evl(f)[i].SetID == old(evl(f)[i].SetID) && evl(f)[i].WayID == old(evl(f)[i].WayID)
 //@   loop 2: invariant forall i in 0..old(len(fll(f))) :: fll(f)[i].SetID == old(fll(f)[i].SetID) && fll(f)[i].WayID == old(fll(f)[i].WayID)
 //@   loop 2: invariant forall i in old(len(evl(f)))..len(evl(f)) :: fll(f)[i - old(len(evl(f))) + old(len(fll(f)))].SetID == evl(f)[i].SetID && fll(f)[i - old(len(evl(f))) + old(len(fll(f)))].WayID == evl(f)[i].WayID
-//@   loop 2: invariant forall i in old(len(evl(f)))..len(evl(f)) :: 0 <= evl(f)[i].SetID && c17Vis(evl(f)[i].SetID, evl(f)[i].WayID, setID, rangeindex) && 0 <= evl(f)[i].WayID && evl(f)[i].WayID < len(sets(f)[evl(f)[i].SetID].Blocks) && c17Sel(f, wl, wi, evl(f)[i].SetID, evl(f)[i].WayID) && c17Eff(pos, posI, setID, evl(f)[i].SetID, evl(f)[i].WayID) == i
+//@   loop 2: invariant forall i in old(len(evl(f)))..len(evl(f)) :: 0 <= evl(f)[i].SetID && c17Vis(evl(f)[i].SetID, evl(f)[i].WayID, setID, rangeindex) && 0 <= evl(f)[i].WayID && evl(f)[i].WayID < len(sets(f)[evl(f)[i].SetID].Blocks)
+//@   loop 2: invariant forall i in old(len(evl(f)))..len(evl(f)) :: c17Sel(f, wl, wi, evl(f)[i].SetID, evl(f)[i].WayID)
+//@   loop 2: invariant forall i in old(len(evl(f)))..len(evl(f)) :: c17Eff(pos, posI, setID, evl(f)[i].SetID, evl(f)[i].WayID) == i
 //@   loop 2: invariant forall s in 0..setID + 1 :: forall w in 0..len(sets(f)[s].Blocks) :: c17Vis(s, w, setID, rangeindex) && c17Sel(f, wl, wi, s, w) ==> old(len(evl(f))) <= c17Eff(pos, posI, setID, s, w) && c17Eff(pos, posI, setID, s, w) < len(evl(f)) && evl(f)[c17Eff(pos, posI, setID, s, w)].SetID == s && evl(f)[c17Eff(pos, posI, setID, s, w)].WayID == w
 //@   loop 2: invariant forall i in old(len(evl(f)))..len(evl(f)) - 1 :: c17Less(evl(f)[i].SetID, evl(f)[i].WayID, evl(f)[i + 1].SetID, evl(f)[i + 1].WayID)
 //@   loop 2: invariant forall s in 0..setID + 1 :: forall w in 0..len(sets(f)[s].Blocks) :: c17Vis(s, w, setID, rangeindex) ==> !c17Busy(f, s, w)
@@ -151,7 +153,7 @@ package writeback
 //@   label C17.flush.transaction
 //@   ensures result ==> 0 <= tix && tix < len(txs(f.pipeline.comp.State)) && len(txs(f.pipeline.comp.State)) <= old(len(txs(f.pipeline.comp.State))) + 1 && c17Evicts(f, tix, old(evl(f)[0].SetID), old(evl(f)[0].WayID))
 //@   label C17.flush.others
-//@   ensures forall k in 0..old(len(txs(f.pipeline.comp.State))) :: result && k != tix ==> c17TxKept(f.pipeline.comp.State, k)
+//@   ensures result ==> (forall k in 0..old(len(txs(f.pipeline.comp.State))) :: k != tix ==> c17TxKept(f.pipeline.comp.State, k))
 //@   label C17.flush.queued
 //@   ensures result ==> len(bufs(f)[old(c17Bank(f))].elements) == old(len(bufs(f)[c17Bank(f)].elements)) + 1 && bufs(f)[old(c17Bank(f))].elements[old(len(bufs(f)[c17Bank(f)].elements))] == tix
 //@   assigns f.pipeline.comp.State.FlusherBlockToEvictRefs, f.pipeline.comp.State.Transactions, elems(f.pipeline.comp.State.Transactions), elems(f.pipeline.comp.State.DirToBankBufs), key("E|int|")
